@@ -658,6 +658,24 @@ pub fn drive_c08(a: &Args) {
             }
         }
     }
+    // braces at EVERY position of an attempt: `\u D1 { D2 } D3` for all splits of a digit string of length <= 4 (only
+    // the split with D1 empty is the braced escape; a brace after one or more digits is an ordinary character)
+    for (k, ds) in all_strings(&[48u32, 52, 70], 4).into_iter().enumerate() {
+        for i in 0..=ds.len() {
+            for j in i..=ds.len() {
+                if !a.thorough() && (k + i + j) % 2 != (a.seed as usize) % 2 && !(i >= 1 && ds[..i].iter().all(|&d| d == 48)) {
+                    continue;
+                }
+                let mut t = vec![92, 117];
+                t.extend(ds[..i].iter());
+                t.push(123);
+                t.extend(ds[i..j].iter());
+                t.push(125);
+                t.extend(ds[j..].iter());
+                out.emit(parse_event(&t));
+            }
+        }
+    }
     // two consecutive escape attempts: a malformed one (with digits already read) followed by a
     // well-formed one -- whatever the first left behind must not leak into the second
     let firsts: Vec<Vec<u32>> = {
